@@ -18,10 +18,10 @@ RULE = ('random operation histories (append / appendleft / pop / popleft / clear
         'observable by a Queue subclass raising instead of blocking. Token accounting: tokens >= pending after every completed post, and '
         'tokens == pending whenever the history followed the consumer protocol. The same through HsmWithQueues.post_* and '
         'ActiveObject.post_* (object not started). distinct_nontrivial = distinct (capacity, target, op kind, fill level class) tuples '
-        'seen with an overflow or a clear')
+        'seen with an overflow or a clear. Every eighth case runs clear() from another thread while a started object consumes a backlog (detsched): clear() must not raise or deadlock and the object must keep dispatching')
 CASES = {'quick': 4000, 'thorough': 300000}
 BUDGET = {'quick': 40, 'thorough': 300}
-REQUIRE = {'ops': 50000, 'overflow_fifo': 500, 'overflow_lifo': 500, 'clears': 500, 'clear_on_fresh': 50, 'protocol_histories': 300}
+REQUIRE = {'ops': 50000, 'overflow_fifo': 500, 'overflow_lifo': 500, 'clears': 500, 'clear_on_fresh': 50, 'protocol_histories': 300, 'concurrent_clear_runs': 300, 'clear_landed_mid_backlog': 50}
 ASSUME = ['sequential histories (one thread); concurrent use is C04/C05']
 
 
@@ -133,7 +133,60 @@ class Target:
     raise AssertionError(op)
 
 
+def concurrent_clear_case(ctx, n):
+  """clear() called from another thread while the started object's own thread is consuming a backlog (detsched):
+  clear() must succeed (no exception, no deadlock) and the object must keep working afterwards"""
+  from vt import detsched as ds, aosim
+  rng = ctx.rng('cclear', n)
+  pol = aosim.policy_for(rng, est_len=600, fair_suffix=False)
+  s = ds.Sched(seed=rng.randrange(1 << 30), max_steps=2000000, **pol)
+  aosim.install(s)
+  try:
+    hist = aosim.History()
+    ao = aosim.make_ao(hist, name='c16')
+    st = aosim.make_state(hist, {}, rng.random() < 0.5)
+    nback = rng.randint(2, 12)
+    rec = {}
+    try:
+      ao.start_at(st)
+      for u in range(nback):
+        ao.post_fifo(Event(signal='EVT', payload=u))
+      rec['call'] = s.steps
+      try:
+        ao.queue.clear()
+      except (ds.Abort, ds.Verdict):
+        raise
+      except BaseException as ex:
+        rec['exc'] = '%s: %s' % (type(ex).__name__, ex)
+      rec['ret'] = s.steps
+      s.quiesce()
+      ao.post_fifo(Event(signal='EVT', payload=999))
+      s.quiesce()
+    except ds.Verdict as v:
+      ctx.violation('C16/concurrent-clear-' + v.kind, 'clear() racing the consumer ended in %s: %r' % (v.kind, (v.info or {}).get('blocked')), {'backlog': nback, 'policy': pol})
+      return
+    ctx.count('concurrent_clear_runs')
+    dispatched = [d['uid'] for d in hist.dispatch if d['sig'] == 'EVT']
+    ctx.distinct(('cclear', nback, len(dispatched), s.signature()[:20]))
+    wit = {'backlog': nback, 'policy': pol, 'clear': rec, 'dispatched': dispatched}
+    if 0 < len(dispatched) - 1 < nback:
+      ctx.count('clear_landed_mid_backlog')
+    if 'exc' in rec:
+      ctx.violation('C16/clear-raises/racing-consumer', 'clear() called while the object\'s thread was consuming a backlog of %d events raised %s' % (nback, rec['exc']), wit)
+      return
+    exc = [(t.name, t.role, repr(t.exc)) for t in s.threads if t.exc is not None]
+    if exc:
+      ctx.violation('C16/concurrent-clear-kills-thread', 'a thread died: %r' % exc, wit)
+      return
+    if 999 not in dispatched:
+      ctx.violation('C16/queue-unusable-after-concurrent-clear', 'an event posted after clear() was never dispatched (queue %d, tokens %d)' % (len(ao.queue), ds._q.Queue.qsize(ao.locking_deque.locking_queue)), wit)
+  finally:
+    ds.uninstall()
+
+
 def run_case(ctx, n):
+  if n % 8 == 7:
+    return concurrent_clear_case(ctx, n)
   rng = ctx.rng('case', n)
   cap = rng.choice([3, 3, 8, 8, 500])
   kind = rng.choice(['ld', 'ld', 'hsm', 'ao'])
